@@ -66,3 +66,11 @@ Example shape_ex : (* "10.1.1.1 255.255.255.0x" and "10.1.1.1/24 " + "x" are ref
   v4_parse [49;48;46;49;46;49;46;49;32;50;53;53;46;50;53;53;46;50;53;53;46;48;120]%N = None /\
   v4_parse [49;48;46;49;46;49;46;49;47;50;52;32;120]%N = None.
 Proof. split; vm_compute; reflexivity. Qed.
+
+(* different IPv4 addresses never print the same (the dotted rendering re-parses to its value) *)
+Require Import CCP.Proofs.IPTextProofs.
+Corollary render_quad_injective a b : (0 <= a < 2 ^ 32)%Z -> (0 <= b < 2 ^ 32)%Z -> render_quad a = render_quad b -> a = b.
+Proof.
+  intros Ha Hb E. destruct (render_quad_facts a Ha) as (_ & Da & _). destruct (render_quad_facts b Hb) as (_ & Db & _).
+  rewrite E in Da. rewrite Da in Db. inversion Db. reflexivity.
+Qed.
